@@ -80,7 +80,7 @@ class Check(PropertyCheck):
         if proof_broken:
             try:
                 if sp.model_exhibits_f4():
-                    self.notes.append("SchedX/XF4Refuted.v compiles: the regenerated model reaches a state with a retrieve job below "
+                    self.notes.append("notes/XF4Refuted_before_fix.v compiles against the regenerated Gen/: the regenerated model reaches a state with a retrieve job below "
                                       "head_offs (SchedX_retr_inv_refuted) and attaches outside the live input (SchedX_bad_attach_reachable)")
             except Exception as e:
                 self.notes.append("refutation build failed: %s" % e)
